@@ -77,6 +77,11 @@ func RecvFilterList(c *rsyncwire.Conn) (*filterRuleList, error) {
 		if length == exclusionListEnd {
 			break
 		}
+		// rsync/exclude.c:recv_filter_list limits a rule to MAXPATHLEN
+		const maxRuleLen = 2 * 4096
+		if length < 0 || length > maxRuleLen {
+			return nil, fmt.Errorf("protocol error: invalid filter rule length %d", length)
+		}
 		line := make([]byte, length)
 		if _, err := io.ReadFull(c.Reader, line); err != nil {
 			return nil, err
